@@ -541,13 +541,24 @@ def _worker(args):
 
 
 def run_cases(cases, template, workdir):
-    if not cases: return {}
-    procs = min(8, max(1, (os.cpu_count() or 2) // 2), max(1, len(cases) // 40))
-    if procs <= 1:
-        return dict(_worker((template, workdir, c)) for c in cases)
+    """in-process cases and process-killing cases are spread over worker processes separately (a kill costs ~0.5 s)"""
+    out = {}
+    timing = run_cases.timing
     mpctx = multiprocessing.get_context('fork')
-    with mpctx.Pool(procs) as pool:
-        return dict(pool.imap_unordered(_worker, [(template, workdir, c) for c in cases], chunksize=4))
+    cpus = max(1, (os.cpu_count() or 2) // 2)
+    for group, per_proc, chunk in (([c for c in cases if c.get('kill') is None and c.get('timed') is None], 40, 8),
+                                   ([c for c in cases if c.get('kill') is not None or c.get('timed') is not None], 4, 1)):
+        if not group: continue
+        t0 = time.time()
+        procs = min(8, cpus, max(1, len(group) // per_proc))
+        if procs <= 1:
+            out.update(dict(_worker((template, workdir, c)) for c in group))
+        else:
+            with mpctx.Pool(procs) as pool:
+                out.update(dict(pool.imap_unordered(_worker, [(template, workdir, c) for c in group], chunksize=chunk)))
+        timing.append(['kill' if chunk == 1 else 'in-process', len(group), procs, round(time.time() - t0, 1)])
+    return out
+run_cases.timing = []
 
 
 # ---------------------------------------------------------------------------------------------------------------------
@@ -594,8 +605,8 @@ def run(ctx):
         ponyutil.rmtree(workdir)
 
 
-QUICK_FULL_FAULTS = ('create', 'raw', 'm2m', 'commit_mid', 'serializable', 'hooks')      # every call index, quick tier too
-QUICK_FULL_KILLS = ('raw', 'commit_mid')
+QUICK_FULL_FAULTS = ('raw', 'm2m', 'commit_mid', 'hooks')      # every call index, quick tier too
+QUICK_FULL_KILLS = ('commit_mid',)
 
 
 def _run(ctx, workdir):
@@ -612,7 +623,9 @@ def _run(ctx, workdir):
     for i in range(ctx.scale(14, 150)):
         g.add('random%d' % i, random_program(rng), rng.choice(list(SESSION_OPTS)), warm=rng.random() < 0.3)
     baselines = list(g.cases)
+    tb = time.time()
     res = run_cases(baselines, template, workdir)
+    ctx.extra['baseline_runs_s'] = round(time.time() - tb, 1)
 
     # ---- 2. faults and kills at every call index of every baseline ---------------------------------------------------
     t0 = time.time()
@@ -622,7 +635,7 @@ def _run(ctx, workdir):
         n = len(obs['events'])
         ks = list(range(n))
         full = ctx.thorough or (b['name'] in QUICK_FULL_FAULTS and not b['warm'])
-        if not full: ks = sorted(rng.sample(ks, min(len(ks), 4)))
+        if not full: ks = sorted(rng.sample(ks, min(len(ks), 3)))
         for k in ks:
             cls = EXC_CLASSES[(b['id'] + k) % len(EXC_CLASSES)].__name__
             call = obs['events'][k]['call']
@@ -644,15 +657,16 @@ def _run(ctx, workdir):
         # SIGKILL
         kks = list(range(n + 1))
         if not (ctx.thorough or (b['name'] in QUICK_FULL_KILLS and not b['warm'])):
-            kks = sorted(rng.sample(kks, min(len(kks), 2)))
+            kks = sorted(rng.sample(kks, 1)) if (b['id'] % 3 == ctx.seed % 3) else []
         for k in kks:
             if k < n: g.add(b['name'], b['program'], b['opts'], b['warm'], kill=['before', k], parent=b['id'])
             else: g.add(b['name'], b['program'], b['opts'], b['warm'], kill=['after', n - 1], parent=b['id'])
-    for i in range(ctx.scale(3, 40)):
+    for i in range(ctx.scale(2, 40)):
         c = g.add('big', [], 'optimistic', False); c['timed'] = round(rng.uniform(0.0, 0.25), 3)
     derived = g.cases[len(baselines):]
     res.update(run_cases(derived, template, workdir))
     ctx.extra['real_runs_s'] = round(time.time() - t0, 1)
+    ctx.extra['run_groups'] = list(run_cases.timing)
 
     # ---- 3. model ---------------------------------------------------------------------------------------------------
     inproc = [c for c in g.cases if c['kill'] is None and c.get('timed') is None]
@@ -661,10 +675,12 @@ def _run(ctx, workdir):
         if 'crash' in obs: raise RuntimeError('harness crashed on %r:\n%s' % (case_json(c), obs['crash']))
         obs['model_events'], obs['model_idx'] = model_events(obs)
     models = {}
+    tm = time.time()
     if ctx.driver.ok:
         outs = ctx.driver('C17', [{'op': 'run', 'phase': 'auto' if c['warm'] else 'idle', 'pre': res[c['id']]['pre'],
                                    'events': res[c['id']]['model_events']} for c in inproc])
         models = {c['id']: m for c, m in zip(inproc, outs)}
+    ctx.extra['driver_s'] = round(time.time() - tm, 1)
 
     # ---- 4. evaluate ------------------------------------------------------------------------------------------------
     shrunk = 0
